@@ -6,6 +6,7 @@ import (
 	"encoding/json"
 	"fmt"
 	"io"
+	"net"
 	"net/http"
 	"net/url"
 	"os"
@@ -142,6 +143,7 @@ type Proc struct {
 	done    chan struct{}
 	waitErr error
 	HTTP    *http.Client
+	RTBase  string // host:port of the verifrt control listener of a real SUT
 }
 
 type LabOpts struct {
@@ -435,4 +437,106 @@ func (p *Proc) RaceReports() string {
 		sb.Write(b)
 	}
 	return sb.String()
+}
+
+// RealOpts configures the real binary (cmd/main.go).
+type RealOpts struct {
+	HDS, NCS    string
+	Flags       []string // HAGALL_FEATURE_FLAGS (JSON list, as cmd's option parser expects)
+	Frame, Idle time.Duration
+	HealthTTL   time.Duration
+	RegInterval time.Duration
+	Race        bool
+	Name        string
+	RTAddr      bool // start the verifrt control listener
+}
+
+func freePort() string {
+	ln, err := net.Listen("tcp", "127.0.0.1:0")
+	if err != nil {
+		return "127.0.0.1:0"
+	}
+	defer ln.Close()
+	return ln.Addr().String()
+}
+
+// StartReal starts the real binary against fake services. RT (verifrt control)
+// is served on its own port when requested (Proc.RTBase).
+func (w *Workspace) StartReal(bin string, o RealOpts) (*Proc, error) {
+	if o.Frame == 0 {
+		o.Frame = 5 * time.Millisecond
+	}
+	if o.Idle == 0 {
+		o.Idle = 10 * time.Minute
+	}
+	if o.HealthTTL == 0 {
+		o.HealthTTL = time.Hour
+	}
+	if o.RegInterval == 0 {
+		o.RegInterval = 200 * time.Millisecond
+	}
+	name := o.Name
+	if name == "" {
+		name = "real"
+	}
+	f, err := os.CreateTemp(w.Dir, name+"-*.log")
+	if err != nil {
+		return nil, err
+	}
+	p := &Proc{LogPath: f.Name(), done: make(chan struct{}), HTTP: &http.Client{Timeout: 30 * time.Second}}
+	p.Addr, p.Admin = freePort(), freePort()
+	flagsJSON, _ := json.Marshal(o.Flags)
+	cmd := exec.Command(bin)
+	cmd.Env = append(os.Environ(), "GOTRACEBACK=all",
+		"HAGALL_ADDR="+p.Addr, "HAGALL_ADMIN_ADDR="+p.Admin, "HAGALL_PUBLIC_ENDPOINT=http://"+p.Addr,
+		"HAGALL_PRIVATE_KEY="+TestKeyHex, "HAGALL_LOG_LEVEL=warning",
+		"HAGALL_HDS_ENDPOINT="+o.HDS, "HAGALL_NCS_ENDPOINT="+o.NCS, "HAGALL_EVENTS_ENDPOINT=",
+		"HAGALL_HDS_REGISTRATION_INTERVAL="+o.RegInterval.String(), "HAGALL_HDS_HEALTHCHECK_TTL="+o.HealthTTL.String(),
+		"HAGALL_FRAME_DURATION="+o.Frame.String(), "HAGALL_CLIENT_IDLE_TIMEOUT="+o.Idle.String(),
+		"HAGALL_SYNC_CLOCK_INTERVAL=1h", "HAGALL_LOG_SUMMARY_INTERVAL=1h",
+		"HAGALL_CLOCK_CHECKER_INITIAL_DELAY=24h")
+	if len(o.Flags) > 0 {
+		cmd.Env = append(cmd.Env, "HAGALL_FEATURE_FLAGS="+string(flagsJSON))
+	}
+	if o.RTAddr {
+		p.RTBase = freePort()
+		cmd.Env = append(cmd.Env, "VERIF_RT_ADDR="+p.RTBase)
+	}
+	if o.Race {
+		p.RaceLog = f.Name() + ".race"
+		cmd.Env = append(cmd.Env, "GORACE=halt_on_error=0 log_path="+p.RaceLog)
+	}
+	cmd.Stdout, cmd.Stderr = f, f
+	if err := cmd.Start(); err != nil {
+		return nil, err
+	}
+	p.Cmd = cmd
+	go func() {
+		p.waitErr = cmd.Wait()
+		f.Close()
+		close(p.done)
+	}()
+	// wait for the admin port
+	deadline := time.Now().Add(30 * time.Second)
+	for {
+		if c, err := net.DialTimeout("tcp", p.Admin, time.Second); err == nil {
+			c.Close()
+			if c2, err := net.DialTimeout("tcp", p.Addr, time.Second); err == nil {
+				c2.Close()
+				break
+			}
+		}
+		select {
+		case <-p.done:
+			b, _ := os.ReadFile(p.LogPath)
+			return nil, fmt.Errorf("real SUT exited at start: %v\n%s", p.waitErr, b)
+		default:
+		}
+		if time.Now().After(deadline) {
+			p.Kill()
+			return nil, fmt.Errorf("real SUT did not open its ports")
+		}
+		time.Sleep(5 * time.Millisecond)
+	}
+	return p, nil
 }
